@@ -197,6 +197,28 @@ pub fn drive<B: Body>(prop: &str, body: &B, classes: &[Cls], n: usize, cfg: &Run
                 match (&sym, &conc) {
                     (Ok(s), Ok(c)) => {
                         if s.items != c.items {
+                            // The wrappers ran on a placeholder text on the symbolic side: code
+                            // that looks at the text itself (not through the VM / automaton)
+                            // sees the placeholder.  If the concrete run -- the real code on the
+                            // model text -- shows a failure of the property, that is a
+                            // counterexample (confirmed natively before it is reported).
+                            if let Some(f) = &c.fail {
+                                rep.candidates.push(Cand {
+                                    prop: prop.to_string(),
+                                    what: f.what.clone(),
+                                    op: f.op.clone(),
+                                    pattern: f.pattern.clone(),
+                                    casei: f.casei,
+                                    limit: f.limit,
+                                    text: p.model.clone(),
+                                    pos,
+                                    arg: f.arg,
+                                    observed: f.observed.clone(),
+                                    expected: f.expected.clone(),
+                                });
+                                rep.bump("failures_seen_on_the_concrete_side_only", 1);
+                                continue;
+                            }
                             rep.divergences.push(std::format!(
                                 "layout {:?} pos {} text {:?}: symbolic {:?} vs concrete {:?}",
                                 widths, pos, text, s.items, c.items
@@ -772,6 +794,8 @@ pub fn work_list(cfg: &RunCfg) -> WorkList {
                   // matched in an earlier iteration and is open again (seed S6-C15)
                   "(?:(a|(?(1)b|c))-)+", "(?:-(a|(?(1)b)))+", "(?:(a|(?(1)b|c))c)+", "(?:(|(?(1)b|c))a)+", "(?:(a|(?(1)))b)+", "(?:(?<g>a|(?(<g>)b|c))a)+",
                   "(?:(a|b(?(1)c|d)))+", "((?(1)a|b))+", "(?:(a)|(?(1)b|c))+",
+                  // an empty yes-branch with a non-empty no-branch (seed S8-C15)
+                  "(a)?(?(1)|b)c", "(?(a)|b)c", "(a)?(?(1)|b|c)", "(?<g>a)?(?(<g>)|b)", "(?(1)|b)(a)?", "(?(?=a)|b)a", "(?(?!a)|a)b",
                   "(?(a)b|c|d)", "(?((?(b)a))b|a)", "(?(a)(?(b)c|d)|e)", "(?:(a)|b)*(?(1)c)", "(a)?(?:(?(1)b|c))*d", "(?=(a))?(?(1)a|b)", "(?(a*)b|c)", "(?(a|ab)c|d)", "((?(2)a|b))(c)?"].iter() {
             fixed.push(Item::new(w, "witness"));
         }
